@@ -74,13 +74,38 @@ def handleVer (hexVal impl : String) : Verdict :=
   { kind := "VER", agree := if !ascii then "na" else if model == impl then "A" else "D", oracle := oracle,
     detail := if model == impl || !ascii then "" else s!"model={model}|impl={impl}" }
 
+/-- the version regex is modelled on ASCII input only (`\\d` of the regex crate also matches other
+Unicode decimal digits): a `pragma solidity` value with a non-ASCII character is outside the model -/
+def pragmaNonAscii (tree : T) : Bool :=
+  (sourceUnitParts tree).any fun p =>
+    match p with
+    | .node .SourceUnitPart_PragmaDirective [_, _, .node .S_StringLiteral [_, _, .str v]] => v.toList.any (fun c => c.toNat ≥ 128)
+    | _ => false
+
+def versionGated : List String :=
+  ["safe_math_pre_080_optimization", "safe_math_post_080_optimization", "string_error_optimization", "short_revert_string_optimization"]
+
 def handleDet (st : St) (fid det impl : String) : Verdict :=
   match lookup st.files fid, detectorByName det with
   | some f, some d =>
     let model := fmtLocs (canonLocs (d f.tree))
+    if versionGated.contains det && pragmaNonAscii f.tree then
+      { kind := "DET", group := det, agree := "na", oracle := if impl == "PANIC" then "VIOL" else "na", detail := "non-ASCII pragma value: outside the model's domain" }
+    else
+    let (oracle, why) : String × String :=
+      if impl == "PANIC" then ("VIOL", "panic")
+      else
+        match nodeSpecOf det, parseLocs impl with
+        | some s, some locs =>
+          if det == "increment_decrement_optimization" && !incDecLocsDistinct f.tree then ("na", "hypothesis IncDecLocsDistinct fails")
+          else
+            match nodeSpecOracle s f.tree locs with
+            | none => ("ok", "")
+            | some w => ("VIOL", w)
+        | _, _ => ("na", "")
     { kind := "DET", group := det, agree := if model == impl then "A" else "D",
-      oracle := if impl == "PANIC" then "VIOL" else "na",
-      detail := if model == impl then "" else s!"model={model}|impl={impl}" }
+      oracle := oracle,
+      detail := if model == impl && oracle != "VIOL" then (if why == "" then "" else why) else s!"{why}|model={model}|impl={impl}" }
   | _, _ => { kind := "DET", group := det, agree := "E", detail := "unknown file or detector" }
 
 def handleLines (st : St) (fid cat variant impl : String) : Verdict :=
